@@ -29,7 +29,8 @@ def get_temperature_driving_forces(
         raise ValueError("Composite curve temperature and heat arrays must be the same length.")
     if T_hot.size == 0 or T_cold.size == 0:
         raise ValueError("Composite curve arrays cannot be empty.")
-    if abs((np.max(H_hot) - np.min(H_hot)) - (np.max(H_cold) - np.min(H_cold))) > tol:
+    # The curves were just rounded to tol: spans that agree to well within tol may now differ by one unit
+    if abs((np.max(H_hot) - np.min(H_hot)) - (np.max(H_cold) - np.min(H_cold))) > 2 * tol:
         raise ValueError("The temperature driving force plot requires the inputted composite curves to be balanced.")
 
     H_hot, T_hot = _normalise_curve(H_hot, T_hot)
